@@ -1072,6 +1072,7 @@ pub fn analyse(model: &ModelDef, insts: &[Inst], opts: &Options) -> Report {
 
     // optimised models for the end-to-end clause: infer-off vs infer-on
     let mut pending_load_failure: Option<String> = None;
+    let mut pending_load_panic: Option<vcore::PanicInfo> = None;
     let mut some_inst_fully_ran = false;
     let e2e_models = if opts.end_to_end {
         let off = vcore::catch(|| Config::OptInferOff.load(&bytes));
@@ -1083,7 +1084,7 @@ pub fn analyse(model: &ModelDef, insts: &[Inst], opts: &Options) -> Report {
                     None
                 }
                 Err(p) => {
-                    rep.fail(format!("e2e-load-panic:{}", p.signature()), format!("load with shape inference on panicked: {} at {}", p.msg, p.loc()));
+                    pending_load_panic = Some(p);
                     None
                 }
             },
@@ -1223,6 +1224,23 @@ pub fn analyse(model: &ModelDef, insts: &[Inst], opts: &Options) -> Report {
                     }
                 }
             }
+        }
+    }
+    if let Some(p) = pending_load_panic {
+        // Same rule for a panic: constant propagation runs operators whose inputs
+        // inference turned into constants; an operator that panics on those
+        // inputs when it is run (e.g. i32 overflow in builds with overflow
+        // checks) then panics at load time. That is the operator's defect, not a
+        // contradiction of inference, unless every operator of the model ran.
+        if !rep.violations.is_empty() {
+            rep.label("e2e-load-panic-after-violation");
+        } else if some_inst_fully_ran {
+            rep.fail(
+                format!("e2e-load-panic:{}", p.signature()),
+                format!("every operator of the model runs, but load with shape inference on panicked: {} at {}", p.msg, p.loc()),
+            );
+        } else {
+            rep.label("e2e-load-panic-on-model-with-failing-operator");
         }
     }
     if let Some(e) = pending_load_failure {
